@@ -5,6 +5,7 @@ mod adframe;
 mod buffered;
 mod bus;
 mod converter;
+mod envelope;
 mod eof;
 mod fork;
 mod osc;
@@ -33,6 +34,7 @@ fn main() {
         &alloc::AllocScenario,
         &osc::OscScenario,
         &sinc::SincScenario,
+        &envelope::EnvelopeScenario,
     ];
     simcore::cli::main(&scens)
 }
